@@ -1,7 +1,8 @@
 """C04 — assertions addressed to someone else are never accepted.
 
 A case is either ONE Response presented to a provider (the keys rs/dest/recip/conv/binding/cfg, optionally
-"cond" = the shape of the <Conditions> element and "confs" = the LIST of SubjectConfirmation elements) or a
+"cond" = the shape of the <Conditions> element and "confs" = the LIST of SubjectConfirmation elements, or
+"asserts" = the LIST of assertions the Response delivers, each plain / encrypted / inside an <Advice>) or a
 SEQUENCE of calls on several long-lived provider objects living in one process (the keys sps/steps).
 Every sequence is observed in a process forked from one in which no provider object has ever been used
 (see _zygote): the observation is a function of the case alone, also when the code under test keeps
@@ -17,10 +18,10 @@ from harness.common import Raw, cq, cq_opt
 PID = "C04"
 PARALLEL = 12
 IMPORTS = "From Verif Require Import C04.Model C04.Spec C04.Corr.\nFrom VerifGen Require Import C04Abbrev."
-SHARD = 170           # cases per coqc file (16 files are evaluated side by side)
+SHARD = 260           # cases per coqc file (16 files are evaluated side by side)
 CASE_TYPE = "C04.Corr.case"
 RUNNER = "C04.Corr.run"
-FINDING_CLASSES = {1: "C04-F1"}
+FINDING_CLASSES = {1: "C04-F1", 2: "C04-F2"}
 RULE = ("(1) single Responses: complete enumeration of audience structures up to 2 restrictions x 2 audiences over an 8-value alphabet "
         "(quick: all shapes with <=1 audience per restriction + seeded sample of the rest), complete product of "
         "Destination(8) x Recipient(9) x conv_info(3) x binding(2) x endpoint configuration(5, incl. SPs with no consumer endpoint for the binding used), plus random look-alike "
@@ -47,7 +48,27 @@ RULE = ("(1) single Responses: complete enumeration of audience structures up to
         "pairs over the 9-letter core (thorough: all 441 pairs x 2), seeded samples of the rest and of triples/quadruples; "
         "seeded mixtures of all dimensions at once; the back-channel binding SOAP (Destination x Recipient x conv_info, "
         "audience structures); unsolicited Responses (no InResponseTo, SP allows them) x Destination x Recipient x "
-        "conv_info x binding x audience structures; the same shapes inside call sequences on every pool configuration")
+        "conv_info x binding x audience structures; the same shapes inside call sequences on every pool configuration.  "
+        "(4) the NUMBER of assertions a Response delivers and the way each travels (response_cases): every list over "
+        "{plain, encrypted} up to length 3 (the empty one, those the count test refuses, 1+k / k+1 mixtures; also 4 and 5 "
+        "assertions) x at every position {addressed to me, audience of someone else, foreign Recipient} (complete for length "
+        "<= 2, length 3: at most one faulty assertion + seeded sample; thorough: complete), the two-assertion shapes x a "
+        "14-letter alphabet per assertion (look-alike / case / second-restriction / period-less / no Conditions / Recipient = "
+        "entityID / confirmation lists / no confirmation), x binding (POST, Redirect, SOAP) x conv_info x Destination x "
+        "unsolicited x endpoint configuration, seeded mixtures in which every assertion has its own Conditions shape and "
+        "confirmation list; assertions INSIDE the <Advice> of a plain / encrypted assertion (advice_cases: one or two of "
+        "them, in the clear or as EncryptedAssertion inside the Advice, under the first / second / both top-level assertions, "
+        "x 10 letters); the observation is PER ASSERTION: is the "
+        "identity the caller gets (NameID returned / cached, attributes returned / cached, the assertion handed out) drawn "
+        "from it (each delivered assertion carries a NameID and an attribute of its own).  "
+        "(5) slot confusion (cross_cases): every string the provider knows about itself, the caller tells it in the "
+        "conversation info or the message mentions (own entityID, entity_id of the conversation info incl. one that differs "
+        "from the configured entityID, own consumer URL for this / the other binding, own logout URL, remote_addr, the IdP's "
+        "entityID and endpoint, request id, relay state) in each of the places Destination / Recipient / Audience and in "
+        "Destination + Recipient at once, x 10 kinds of conversation info ({}, entity_id None / '' / own / other / a consumer "
+        "URL, with and without remote_addr) x binding, also on bare / one-binding configurations; call sequences "
+        "(cross_sequences) in which a call WITH conversation info or a multi-assertion Response precedes calls without, on "
+        "every pool configuration, pairs of objects and seeded random sequences")
 TRUSTED = ["source-to-Gallina translator harness/py2coq.py + value universe coq/theories/Base/Py.v (for_me is re-translated "
            "from the source text on every run; c04_source_for_me proves it equal to the model)",
            "translator harness/py2coq2.py + coq/theories/Base/Py2.v (source text -> Gallina, fail-closed; not modelled: "
@@ -67,7 +88,12 @@ ASSUMPTIONS = ["whitespace padding uses ASCII whitespace only (model's strip is 
                "sender-vouches data unless it has a NotBefore without NotOnOrAfter, holder-of-key data iff it contains ds:KeyInfo; "
                "confirmation data that is expired / not yet valid makes the whole Response fail and is not generated",
                "everything else about the Response is valid (status, times, signature, InResponseTo)",
-               "call sequences: the calls of one case are made one after the other in one thread"]
+               "call sequences: the calls of one case are made one after the other in one thread",
+               "several assertions: encrypted assertions are encrypted for the SP's own certificate (RSA-OAEP + AES-128-CBC through "
+               "the stand-in) and decrypt; assertions are unsigned (the Response is signed by the IdP); advised assertions are "
+               "<Assertion> or <EncryptedAssertion> children of the <Advice> of a top-level assertion, without AuthnStatement, each with "
+               "exactly one AttributeStatement; 'identity drawn from assertion k' is read off the distinct NameID / attribute name "
+               "/ assertion ID every delivered assertion is given (harness/c04.py:_parse_step)"]
 
 ME = world.SP_ID
 OTHER = "https://other.example.org/sp.xml"
@@ -86,6 +112,8 @@ CONFIGS = {
 # configurations used only by the back-channel cases (kept out of the Destination x Recipient product above)
 CONFIGS_EXTRA = {
     "soap": [(world.SP_ACS_POST, POST), (SP_ACS_SOAP, SOAP)],
+    # the other legal spelling of an endpoint specification: (url, binding, index)
+    "indexed": [(world.SP_ACS_POST, POST, 1), ("https://sp.example.org/acs/post2", POST, 2), (world.SP_ACS_REDIRECT, REDIRECT, 3)],
 }
 
 
@@ -493,6 +521,359 @@ def message_sequences(ctx):
     return out
 
 
+# ------------------------------------------------------------------ a Response delivering SEVERAL assertions
+# "asserts": the assertions of the Response in document order, each
+#     {"enc": bool (travels as EncryptedAssertion), "rs", "recip", optional "cond", "confs"}  (as for a whole step),
+#     optional "adv": True = the assertion sits inside the <Advice> of the top-level assertion before it
+# The count test of parse_assertion admits exactly one plain OR exactly one encrypted assertion: P, E, PE, EP, PPE, PEE, ...
+def part(enc, rs, recip, cond=None, confs=None, adv=False):
+    a = {"enc": bool(enc), "rs": rs, "recip": recip}
+    if adv:
+        a["adv"] = True      # travels inside the <Advice> of the top-level assertion before it ("enc": as an EncryptedAssertion there)
+    if cond is not None:
+        a["cond"] = cond
+    if confs is not None:
+        a["confs"] = confs
+    return a
+
+
+def resp_case(asserts, dest, conv, binding, cfg, tag, unsol=False):
+    c = mk_case([], dest, None, conv, binding, cfg, tag)
+    c["asserts"] = asserts
+    if unsol:
+        c["unsol"] = True
+    return c
+
+
+def s_resp(i, binding, dest, conv, asserts):
+    return dict(s_parse(i, binding, [], dest, None, conv), asserts=asserts)
+
+
+def travel_shapes(maxlen):
+    """all lists over {plain, encrypted} up to the given length, the empty one included"""
+    out = [()]
+    for n in range(1, maxlen + 1):
+        out += list(itertools.product((False, True), repeat=n))
+    return out
+
+
+def count_admits(shape):
+    return sum(1 for e in shape if not e) == 1 or sum(1 for e in shape if e) == 1
+
+
+def part_letters(me, own, other_eid):
+    """what one delivered assertion can be, as far as the three clauses go: (name, rs, recip, cond, confs)"""
+    noperiod = {"present": True, "nb": False, "nooa": False, "other": None}
+    return {
+        "good": ([[me]], own, None, None),
+        "aud-other": ([[other_eid]], own, None, None),
+        "rcp-evil": ([[me]], EVIL, None, None),
+        "aud-second": ([[me], [other_eid]], own, None, None),
+        "aud-look": ([[me + "x"]], own, None, None),
+        "aud-case": ([[me.upper()]], own, None, None),
+        "aud-among": ([[other_eid, me]], own, None, None),
+        "aud-noperiod-other": ([[other_eid]], own, noperiod, None),
+        "nocond": ([], own, {"present": False, "nb": False, "nooa": False, "other": None}, None),
+        "rcp-eid": ([[me]], me, None, None),
+        "rcp-first-evil": ([[me]], None, None, [conf("bearer", EVIL), conf("bearer", own)]),
+        "rcp-last-evil": ([[me]], None, None, [conf("bearer", own), conf("bearer", EVIL)]),
+        "rcp-absent": ([[me]], None, None, None),
+        "noconf": ([[me]], None, None, []),
+    }
+
+
+def mk_part(enc, letter, adv=False):
+    rs, recip, cond, confs = letter
+    return part(enc, rs, recip, cond, confs, adv)
+
+
+def is_adv(p):
+    return bool(p.get("adv"))
+
+
+def is_enc(p):
+    return bool(p["enc"]) and not is_adv(p)
+
+
+CORE_LETTERS = ("good", "aud-other", "rcp-evil")
+
+
+def response_cases(ctx):
+    """The number of assertions a Response delivers and the way each of them travels (in the clear / encrypted), in every
+    document order - x what each assertion is (addressed to me, to someone else, look-alikes, Recipient classes)."""
+    rng = ctx.rng
+    cases = []
+    good = {POST: world.SP_ACS_POST, REDIRECT: world.SP_ACS_REDIRECT}
+    conv = {"entity_id": ME}
+    L = part_letters(ME, good[POST], OTHER)
+    names = list(L)
+    # (a) every travel shape up to length 3 x the core letters at every position: complete
+    for shape in travel_shapes(3):
+        if not count_admits(shape):
+            # refused by the count test whatever the assertions are: all good, and one with a fault at each position
+            fills = [("good",) * len(shape)] + [tuple("aud-other" if j == i else "good" for j in range(len(shape))) for i in range(len(shape))]
+        else:
+            fills = list(itertools.product(CORE_LETTERS, repeat=len(shape)))
+            if len(shape) == 3 and not ctx.thorough:
+                # quick tier: at most one assertion with a fault (at every position, both faults) + a seeded sample of the rest
+                few = [f for f in fills if f.count("good") >= 2]
+                fills = few + rng.sample([f for f in fills if f not in few], 3)
+        for fill in fills:
+            cases.append(resp_case([mk_part(e, L[x]) for e, x in zip(shape, fill)], good[POST], conv, POST, "default", "resp"))
+    # (b) the two-assertion shapes x the whole alphabet of letters (thorough: complete; quick: every letter next to a good
+    #     one at either position, travelling either way)
+    for shape in ((False, True), (True, False)):
+        if ctx.thorough:
+            fills = list(itertools.product(names, repeat=2))
+        else:
+            fills = [(x, "good") for x in names] + [("good", x) for x in names]
+        for fill in fills:
+            if all(x in CORE_LETTERS for x in fill):
+                continue
+            cases.append(resp_case([mk_part(e, L[x]) for e, x in zip(shape, fill)], good[POST], conv, POST, "default", "resp"))
+    # every letter alone, travelling encrypted
+    for x in names:
+        for cv in (conv, None):
+            cases.append(resp_case([mk_part(True, L[x])], good[POST], cv, POST, "default", "resp"))
+    # (c) four and five assertions (1 + k, k + 1)
+    for shape in ((False, True, True, True), (True, False, False, False), (False, False, True, False, False), (True, True, False, True, True)):
+        for bad in [None] + list(range(len(shape))):
+            for letter in (("aud-other",) if bad is None else ("aud-other", "rcp-evil")):
+                fill = [letter if j == bad else "good" for j in range(len(shape))]
+                cases.append(resp_case([mk_part(e, L[x]) for e, x in zip(shape, fill)], good[POST], conv, POST, "default", "resp"))
+    # (d) the other dimensions: binding (Redirect, SOAP), conversation info, Destination, unsolicited, configuration
+    LR = part_letters(ME, good[REDIRECT], OTHER)
+    LS = part_letters(ME, SP_ACS_SOAP, OTHER)
+    for shape in ((False, True), (True, False), (False, False, True), (True,)):
+        for fill in itertools.product(CORE_LETTERS, repeat=len(shape)):
+            if len(shape) == 3 and fill.count("good") < 2:
+                continue
+            cases.append(resp_case([mk_part(e, LR[x]) for e, x in zip(shape, fill)], good[REDIRECT], conv, REDIRECT, "default", "resp"))
+            cases.append(resp_case([mk_part(e, L[x]) for e, x in zip(shape, fill)], good[POST], None, POST, "default", "resp"))
+            cases.append(resp_case([mk_part(e, L[x]) for e, x in zip(shape, fill)], good[POST], conv, POST, "default", "resp", unsol=True))
+            if len(shape) < 3:
+                cases.append(resp_case([mk_part(e, LS[x]) for e, x in zip(shape, fill)], None, conv, SOAP, "soap", "resp"))
+    for dest in (None, "", EVIL, ME, good[REDIRECT], good[POST] + "/x"):
+        for shape in ((False, True), (True,)):
+            cases.append(resp_case([mk_part(e, L["good"]) for e in shape], dest, conv, POST, "default", "resp"))
+    for cfg in ("bare", "twopost", "redironly"):
+        for fill in (("good", "good"), ("good", "aud-other"), ("rcp-evil", "good")):
+            cases.append(resp_case([mk_part(e, L[x]) for e, x in zip((False, True), fill)], good[POST], conv, POST, cfg, "resp"))
+    # (e) seeded mixtures: every assertion with its own Conditions shape, confirmation list and audience structure
+    shapes = cond_shapes()
+    admitted = [sh for sh in travel_shapes(4) if count_admits(sh)]
+    for _ in range(600 if ctx.thorough else 60):
+        binding = rng.choice([POST, POST, REDIRECT])
+        own = good[binding]
+        alb = conf_alphabet(own, ME, good[REDIRECT if binding == POST else POST])
+        shape = rng.choice(admitted) if rng.random() < .9 else rng.choice(travel_shapes(3))
+        asserts = []
+        for e in shape:
+            r = rng.random()
+            if r < .55:
+                asserts.append(mk_part(e, part_letters(ME, own, OTHER)["good"]))
+                continue
+            csl = [rng.choice(alb) if rng.random() < .4 else alb[rng.choice([0, 0, 1])] for _ in range(rng.choice([1, 1, 2, 3]))]
+            rs = rng.choice(AUD_CORE[1:]) if rng.random() < .6 else [[ME]]
+            asserts.append(part(e, rs, None, rng.choice(shapes) if rng.random() < .5 else None, csl))
+        dest = own if rng.random() < .8 else rng.choice([None, "", EVIL, ME, own + "/x"])
+        cases.append(resp_case(asserts, dest, rng.choice([conv, conv, None, {"remote_addr": "0.0.0.0"}]), binding, "default", "resp-mixed"))
+    return cases
+
+
+def advice_cases(ctx):
+    """Assertions delivered INSIDE the <Advice> of a top-level assertion (get_identity merges their attributes): under a
+    plain / an encrypted parent, one or two of them, x what the advised assertion is.  Before 913771bd every case in which the
+    advised assertion's restrictions do not name me was finding C04-F2 (class 2 recognises a regression)."""
+    cases = []
+    good = {POST: world.SP_ACS_POST, REDIRECT: world.SP_ACS_REDIRECT}
+    conv = {"entity_id": ME}
+    L = part_letters(ME, good[POST], OTHER)
+    letters = ("good", "aud-other", "aud-second", "aud-look", "aud-case", "aud-among", "aud-noperiod-other", "nocond", "rcp-evil", "noconf")
+    for enc in (False, True):
+        for x in letters:
+            cases.append(resp_case([mk_part(enc, L["good"]), mk_part(False, L[x], adv=True)], good[POST], conv, POST, "default", "advice"))
+        # the advised assertion as <EncryptedAssertion> inside the Advice (the shape pysaml2's own IdP produces for PEFIM)
+        for x in ("good", "aud-other", "aud-second", "aud-look", "nocond"):
+            cases.append(resp_case([mk_part(enc, L["good"]), mk_part(True, L[x], adv=True)], good[POST], conv, POST, "default", "advice"))
+        cases.append(resp_case([mk_part(enc, L["good"]), mk_part(True, L["good"], adv=True), mk_part(False, L["aud-other"], adv=True),
+                                mk_part(not enc, L["good"])], good[POST], conv, POST, "default", "advice"))
+        cases.append(resp_case([mk_part(enc, L["rcp-evil"]), mk_part(True, L["good"], adv=True)], good[POST], conv, POST, "default", "advice"))
+        # the parent is refused: nothing may be drawn from the advised one either
+        for px in ("aud-other", "rcp-evil"):
+            for x in ("good", "aud-other"):
+                cases.append(resp_case([mk_part(enc, L[px]), mk_part(False, L[x], adv=True)], good[POST], conv, POST, "default", "advice"))
+        # two advised assertions in one Advice; advice under the second of two top-level assertions; under both
+        for x, y in (("good", "good"), ("good", "aud-other"), ("aud-other", "good")):
+            cases.append(resp_case([mk_part(enc, L["good"]), mk_part(False, L[x], adv=True), mk_part(False, L[y], adv=True)],
+                                   good[POST], conv, POST, "default", "advice"))
+            cases.append(resp_case([mk_part(enc, L["good"]), mk_part(not enc, L["good"]), mk_part(False, L[x], adv=True)],
+                                   good[POST], conv, POST, "default", "advice"))
+            cases.append(resp_case([mk_part(enc, L["good"]), mk_part(False, L[x], adv=True), mk_part(not enc, L["good"]),
+                                    mk_part(False, L[y], adv=True)], good[POST], conv, POST, "default", "advice"))
+        # Destination, binding, conversation info
+        for dest in (None, EVIL, ME):
+            cases.append(resp_case([mk_part(enc, L["good"]), mk_part(False, L["good"], adv=True)], dest, conv, POST, "default", "advice"))
+        LR = part_letters(ME, good[REDIRECT], OTHER)
+        for x in ("good", "aud-other"):
+            cases.append(resp_case([mk_part(enc, LR["good"]), mk_part(False, LR[x], adv=True)], good[REDIRECT], None, REDIRECT, "default", "advice"))
+            cases.append(resp_case([mk_part(enc, L["good"]), mk_part(False, L[x], adv=True)], good[POST], conv, POST, "default", "advice", unsol=True))
+    return cases
+
+
+def advice_sequences(ctx):
+    out = []
+    for name in ("std", "tenant", "bare"):
+        prov = POOL[name]
+        sps = [prov]
+        eid = prov["eid"]
+        conv = {"entity_id": eid}
+        g = (p_own(prov, POST) or ["https://sp.example.org/acs/unregistered"])[0]
+        L = part_letters(eid, g, OTHER)
+        adv_bad = [mk_part(False, L["good"]), mk_part(False, L["aud-other"], adv=True)]
+        adv_good = [mk_part(True, L["good"]), mk_part(False, L["good"], adv=True)]
+        out.append(mk_seq(sps, [s_good(sps, 0, POST, conv), s_resp(0, POST, g, conv, adv_good), s_resp(0, POST, g, conv, adv_bad),
+                                s_parse(0, POST, [[OTHER]], g, g, conv)], "seq-advice"))
+    return out
+
+
+# ------------------------------------------------------------------ slot confusion: a value that belongs in ONE place, in the others
+ALT = "https://proxy.example.org/sp.xml"     # what a caller may name as "my entity in this conversation" besides the configured one
+
+
+def conv_alphabet(own):
+    return [None, {}, {"entity_id": ME}, {"entity_id": ME, "remote_addr": "192.0.2.7"}, {"remote_addr": "192.0.2.7"},
+            {"entity_id": ALT}, {"entity_id": OTHER}, {"entity_id": own}, {"entity_id": ""}, {"entity_id": None}]
+
+
+def cross_cases(ctx):
+    """Every string the provider knows about itself, the caller tells it (conversation info) or the message itself
+    mentions - own entityID, the entityID named in the conversation info, own consumer URL for this / the other binding,
+    own logout URL, the caller's address, the IdP's entityID and endpoint, the request id, the relay state - put into
+    each of the three places (Destination, Recipient, Audience) and into Destination and Recipient at once, under every
+    kind of conversation info.  A value acceptable in one place is not acceptable in another."""
+    cases = []
+    good = {POST: world.SP_ACS_POST, REDIRECT: world.SP_ACS_REDIRECT}
+    slo = {POST: world.SP_SLO_POST, REDIRECT: world.SP_SLO_REDIRECT}
+    for binding in (POST, REDIRECT):
+        own, ob = good[binding], good[REDIRECT if binding == POST else POST]
+        convs = conv_alphabet(own)
+        if binding == REDIRECT and not ctx.thorough:
+            convs = [None, {"entity_id": ME}, {"entity_id": ALT}]
+        for conv in convs:
+            vals = [ME, own, ob, slo[binding], world.IDP_ID, world.IDP_SSO_POST, OTHER, ALT, "req-1", "/"]
+            for k in ("entity_id", "remote_addr"):
+                v = (conv or {}).get(k)
+                if v:
+                    vals.append(v)
+            seen = []
+            for v in vals:
+                if v in seen:
+                    continue
+                seen.append(v)
+                if not ctx.thorough and binding == REDIRECT and v in ("req-1", "/", world.IDP_SSO_POST, OTHER):
+                    continue
+                cases.append(mk_case([[ME]], v, own, conv, binding, "default", "cross"))
+                cases.append(mk_case([[ME]], own, v, conv, binding, "default", "cross"))
+                cases.append(mk_case([[v]], own, own, conv, binding, "default", "cross"))
+                cases.append(mk_case([[ME]], v, v, conv, binding, "default", "cross"))
+    # the same on configurations whose consumer endpoints are bare / missing for the binding
+    for cfg in ("bare", "postonly", "redironly"):
+        for binding in (POST, REDIRECT):
+            owns = own_for(cfg, binding)
+            own = owns[0] if owns else "https://sp.example.org/acs/unregistered"
+            for conv in ({"entity_id": ME}, {"entity_id": ALT}, None):
+                for v in (ME, ALT):
+                    cases.append(mk_case([[ME]], v, own, conv, binding, cfg, "cross"))
+                    cases.append(mk_case([[ME]], v, v, conv, binding, cfg, "cross"))
+    # endpoint specifications written as (url, binding, index)
+    for binding in (POST, REDIRECT):
+        owns = own_for("indexed", binding)
+        ob = own_for("indexed", REDIRECT if binding == POST else POST)[0]
+        for conv in ({"entity_id": ME}, None):
+            for d in owns + [ob, ME, EVIL, owns[0] + "/x"]:
+                cases.append(mk_case([[ME]], d, owns[0], conv, binding, "indexed", "cross"))
+                cases.append(mk_case([[ME]], owns[0], d, conv, binding, "indexed", "cross"))
+    # several assertions: the Destination named in the conversation info, Recipients of either kind
+    L = part_letters(ME, good[POST], OTHER)
+    for conv in ({"entity_id": ME}, {"entity_id": ALT}):
+        for dest in (ME, ALT):
+            cases.append(resp_case([mk_part(False, L["good"]), mk_part(True, L["rcp-eid"])], dest, conv, POST, "default", "cross"))
+    return cases
+
+
+def cross_sequences(ctx):
+    """Long-lived objects: what a call WITH conversation info (or a Response with several assertions) leaves behind for
+    the calls after it - on this object and on the others."""
+    rng = ctx.rng
+    out = []
+    for name, prov in POOL.items():
+        sps = [prov]
+        eid = prov["eid"]
+        conv = {"entity_id": eid}
+        for b in (POST, REDIRECT):
+            g = (p_own(prov, b) or ["https://sp.example.org/acs/unregistered"])[0]
+            to_eid = s_parse(0, b, [[eid]], eid, g, None)              # Destination = my entityID, no conversation info
+            to_eid_c = s_parse(0, b, [[eid]], eid, eid, conv)          # the same, the caller names me
+            alt_c = s_parse(0, b, [[eid]], ALT, g, {"entity_id": ALT})
+            if b == POST or ctx.thorough:
+                out.append(mk_seq(sps, [s_good(sps, 0, b, conv), to_eid, s_call("urls", 0, b), to_eid_c, s_call("urls", 0, b),
+                                        s_good(sps, 0, b)], "seq-cross"))
+            if b == POST or ctx.thorough:
+                out.append(mk_seq(sps, [to_eid_c, alt_c, s_call("authn", 0, b), s_parse(0, b, [[eid]], ALT, g, None),
+                                        s_call("endp", 0, b, "assertion_consumer_service")], "seq-cross"))
+            else:
+                out.append(mk_seq(sps, [to_eid_c, to_eid, s_call("urls", 0, b)], "seq-cross"))
+        # several assertions on a long-lived object: a refused mixture between accepted ones, then a single wrong one
+        g = (p_own(prov, POST) or ["https://sp.example.org/acs/unregistered"])[0]
+        L = part_letters(eid, g, OTHER)
+        okpair = [mk_part(False, L["good"]), mk_part(True, L["good"])]
+        badenc = [mk_part(False, L["good"]), mk_part(True, L["aud-other"])]
+        badplain = [mk_part(True, L["good"]), mk_part(False, L["aud-look"])]
+        out.append(mk_seq(sps, [s_resp(0, POST, g, conv, okpair), s_resp(0, POST, g, conv, badenc),
+                                s_parse(0, POST, [[OTHER]], g, g, conv), s_resp(0, POST, g, conv, badplain),
+                                s_resp(0, POST, g, conv, [mk_part(True, L["rcp-evil"])])], "seq-resp"))
+    names = list(POOL)
+    for x in names:                      # two objects: the first one's entityID as Destination / Recipient at the second
+        for y in names:
+            if x == y or (not ctx.thorough and (names.index(x) + names.index(y)) % 3):
+                continue
+            sps = [POOL[x], POOL[y]]
+            e0, e1 = sps[0]["eid"], sps[1]["eid"]
+            g1 = (p_own(sps[1], POST) or ["https://sp.example.org/acs/unregistered"])[0]
+            L1 = part_letters(e1, g1, e0)
+            out.append(mk_seq(sps, [s_good(sps, 0, POST, {"entity_id": e0}),
+                                    s_parse(1, POST, [[e1]], e0, g1, {"entity_id": e1}),
+                                    s_parse(1, POST, [[e1]], g1, e0, {"entity_id": e1}),
+                                    s_resp(1, POST, g1, {"entity_id": e1}, [mk_part(False, L1["good"]), mk_part(True, L1["aud-other"])]),
+                                    s_good(sps, 1, POST, {"entity_id": e1})], "seq-cross"))
+    shapes = [sh for sh in travel_shapes(3) if sh]
+    for _ in range(300 if ctx.thorough else 20):
+        k = rng.choice([1, 2])
+        sps = [POOL[c] for c in rng.sample(names, k)]
+        eids = sorted({p["eid"] for p in sps} | {OTHER, ALT})
+        steps = []
+        for _ in range(rng.randint(2, 5)):
+            i = rng.randrange(k)
+            b = rng.choice([POST, REDIRECT])
+            own = s_good(sps, i, b)["dest"]
+            me = sps[i]["eid"]
+            if rng.random() < .15:
+                steps.append(s_call(rng.choice(["urls", "authn"]), i, b))
+                continue
+            cv = rng.choice([None, {"entity_id": me}, {"entity_id": rng.choice(eids)}, {"remote_addr": "192.0.2.7"}])
+            pool = [own, own, own, me, (cv or {}).get("entity_id") or me, None, EVIL] + eids
+            L = part_letters(me, own, rng.choice(eids))
+            if rng.random() < .5:
+                sh = rng.choice(shapes)
+                asserts = [mk_part(e, L[rng.choice(["good", "good", "good"] + list(L))]) for e in sh]
+                steps.append(s_resp(i, b, rng.choice(pool), cv, asserts))
+            else:
+                steps.append(s_parse(i, b, [[rng.choice([me, me, me] + eids)]], rng.choice(pool), rng.choice(pool), cv))
+        out.append(mk_seq(sps, steps, "seq-cross"))
+    return out
+
+
 # ------------------------------------------------------------------ names for the strings / endpoint lists of (nearly) every case
 # Coq parses a string literal character by character, which dominated the evaluation time of the case files: the
 # static vocabulary of the generator (independent of the seed) gets names in coq/gen/C04Abbrev.v, written on every run
@@ -501,7 +882,8 @@ def abbr_strings():
     out = []
     vals = [POST, REDIRECT, SOAP, ME, OTHER, EVIL, SP_ACS_SOAP, world.SP_ACS_POST, world.SP_ACS_REDIRECT,
             world.SP_SLO_POST, world.SP_SLO_REDIRECT, "https://sp.example.org/acs/unregistered",
-            "https://sp.example.org/acs/elsewhere"]
+            "https://sp.example.org/acs/elsewhere", ALT, world.IDP_ID, world.IDP_SSO_POST, "req-1", "/", "192.0.2.7",
+            ME + "x", ME.upper()]
     for eps in list(CONFIGS.values()) + list(CONFIGS_EXTRA.values()):
         vals += [e if isinstance(e, str) else e[0] for e in eps]
     for p in POOL.values():
@@ -768,6 +1150,14 @@ def generate(ctx):
     # the shape of the message: <Conditions> parts, SubjectConfirmation lists, back-channel binding
     cases += message_cases(ctx)
     cases += message_sequences(ctx)
+    # the number of assertions a Response delivers and the way each travels (plain / encrypted)
+    cases += response_cases(ctx)
+    # slot confusion: a value that is right in one place (or that the caller / the message mentions), in the other places
+    cases += cross_cases(ctx)
+    cases += cross_sequences(ctx)
+    # assertions inside the <Advice> of another assertion
+    cases += advice_cases(ctx)
+    cases += advice_sequences(ctx)
     return cases
 
 
@@ -905,28 +1295,119 @@ def observe(case):
     return _observe_single(case)
 
 
-def _response(step, n, me_eid=ME):
-    a = spaccept.good_assertion(id="a-%d" % n)
-    a["subject"]["name_id"] = "subject-%d" % n
-    cond = _conditions(step, me_eid, OTHER)
+# per delivered assertion a different attribute (each known to the attribute converters): what get_identity returns
+# shows which assertions it was drawn from
+PART_ATTRS = [("urn:oid:0.9.2342.19200300.100.1.3", "mail"), ("urn:oid:2.5.4.42", "givenName"), ("urn:oid:2.5.4.4", "sn"),
+              ("urn:oid:2.5.4.3", "cn"), ("urn:oid:2.16.840.1.113730.3.1.241", "displayName")]
+A_TAG = "{urn:oasis:names:tc:SAML:2.0:assertion}"
+
+
+def part_id(n, k):
+    return "a-%d-%d" % (n, k)
+
+
+def part_subject(n, k):
+    return "subject-%d-%d" % (n, k)
+
+
+def _assertion_spec(part, aid, subject, me_eid, unsol, attr=None):
+    """The abstract assertion (for render.assertion) of one step / one part of a step: rs, cond, confs | recip."""
+    a = spaccept.good_assertion(id=aid)
+    if attr is not None:
+        a["attributes"] = [(attr[0], render.NF_URI, attr[1], ["value-of-%s" % aid])]
+    a["subject"]["name_id"] = subject
+    cond = _conditions(part, me_eid, OTHER)
     if cond == "usual":
-        a["conditions"]["audience_restrictions"] = step["rs"]
+        a["conditions"]["audience_restrictions"] = part["rs"]
     else:
         a["conditions"] = cond
-    unsol = bool(step.get("unsol"))      # an unsolicited Response: no InResponseTo anywhere (the SP allows unsolicited ones)
-    if step.get("confs") is not None:
+    if part.get("confs") is not None:
         # the renderer's confirmation has no child elements: the list is rendered here, next to the NameID
         a["subject"]["name_id_xml"] = render.name_id(a["subject"]["name_id"]) + "".join(
-            _conf_xml(c, None if unsol else "req-1") for c in step["confs"])
+            _conf_xml(c, None if unsol else "req-1") for c in part["confs"])
         a["subject"]["confirmations"] = []
     else:
         d = a["subject"]["confirmations"][0]["data"]
         if unsol:
             del d["in_response_to"]
-        if step["recip"] is None:
+        if part["recip"] is None:
             del d["recipient"]
         else:
-            d["recipient"] = step["recip"]
+            d["recipient"] = part["recip"]
+    return a
+
+
+ADVICE_XPATH = ('/*[local-name()="Response"]/*[local-name()="Assertion"]/*[local-name()="Advice"]'
+                '/*[local-name()="EncryptedAssertion"]/*[local-name()="Assertion"]')
+
+
+def _encrypt_assertions(xml, ids):
+    """Local variant of render.encrypt_assertion_in_response: the Assertion elements with the given IDs - children of the
+    Response or of the <Advice> of a (still plain) child of the Response, any number, at any position - are wrapped in
+    saml:EncryptedAssertion and encrypted for the SP's certificate through the stand-in, one after the other (inner
+    ones first); every EncryptedData / EncryptedKey gets an Id of its own."""
+    import tempfile
+    import xml.etree.ElementTree as ET
+    from harness import fixtures
+
+    m = env.standin()
+    for j, aid in enumerate(ids):
+        root = m._parse(xml.encode("utf-8") if isinstance(xml, str) else xml)
+        found = None
+        for top in list(root):
+            if top.tag == A_TAG + "Assertion" and top.get("ID") == aid:
+                found = (root, top, render.ASSERT_XPATH)
+                break
+            if top.tag == A_TAG + "Assertion":
+                for adv in top.findall(A_TAG + "Advice"):
+                    for inner in list(adv):
+                        if inner.tag == A_TAG + "Assertion" and inner.get("ID") == aid:
+                            found = (adv, inner, ADVICE_XPATH)
+        parent, a, xpath = found
+        idx = list(parent).index(a)
+        parent.remove(a)
+        wrap = ET.Element(A_TAG + "EncryptedAssertion")
+        wrap.append(a)
+        wrap.tail = a.tail
+        a.tail = None
+        parent.insert(idx, wrap)
+        with tempfile.NamedTemporaryFile(suffix=".xml", delete=False) as f:
+            f.write(ET.tostring(root, encoding="utf-8"))
+            path = f.name
+        try:
+            tmpl = render.ENC_TEMPLATE.replace("ED_verif", "ED_verif%d" % j).replace("EK_verif", "EK_verif%d" % j)
+            out, _, _ = m.do_encrypt({"xml_data": path, "node_xpath": xpath,
+                                      "pubkey_cert": fixtures.cert_path("sp")}, tmpl.encode())
+        finally:
+            os.unlink(path)
+        xml = out.decode("utf-8")
+    return xml
+
+
+def _response(step, n, me_eid=ME):
+    unsol = bool(step.get("unsol"))      # an unsolicited Response: no InResponseTo anywhere (the SP allows unsolicited ones)
+    enc_ids, inner_ids = [], []
+    if step.get("asserts") is not None:
+        # a LIST of assertions, each in the clear or encrypted, in document order
+        specs = []
+        for k, part in enumerate(step["asserts"]):
+            a = _assertion_spec(part, part_id(n, k), part_subject(n, k), me_eid, unsol, PART_ATTRS[k])
+            if is_adv(part):
+                # inside the <Advice> of the top-level assertion before it (one Advice element holds all of them)
+                assert specs, "an advised assertion needs a top-level assertion before it"
+                a["authn_statements"] = []
+                specs[-1].setdefault("advised", []).append(render.assertion(a))
+                if part["enc"]:          # <EncryptedAssertion> inside the Advice (the PEFIM shape): encrypted before its parent
+                    inner_ids.append(part_id(n, k))
+                continue
+            specs.append(a)
+            if part["enc"]:
+                enc_ids.append(part_id(n, k))
+        for a in specs:
+            if a.get("advised"):
+                a["advice"] = "<saml:Advice>%s</saml:Advice>" % "".join(a.pop("advised"))
+    else:
+        specs = [_assertion_spec(step, "a-%d" % n, "subject-%d" % n, me_eid, unsol)]
     r = spaccept.good_response(id="r-%d" % n)
     if unsol:
         del r["in_response_to"]
@@ -934,7 +1415,14 @@ def _response(step, n, me_eid=ME):
         del r["destination"]
     else:
         r["destination"] = step["dest"]
-    xml = spaccept.build(r, [a], sign_response="idp")
+    if enc_ids or inner_ids:
+        # as an IdP does: encrypt the assertions, then sign the Response over the ciphertext
+        r["assertions_xml"] = [render.assertion(a) for a in specs]
+        r["sig_template"] = render.signature_template(r["id"])
+        xml = _encrypt_assertions(render.response(r), inner_ids + enc_ids)
+        xml = render.sign_xml(xml, "idp", render.R_ELEM, r["id"])
+    else:
+        xml = spaccept.build(r, specs, sign_response="idp")
     if step["binding"] == SOAP:
         return xml, render.soap_envelope(xml)
     return xml, (render.b64(xml) if step["binding"] == POST else render.deflate_b64(xml))
@@ -942,6 +1430,9 @@ def _response(step, n, me_eid=ME):
 
 def _observe_single(case):
     sp = _single_sp(case["cfg"], bool(case.get("unsol")))
+    if case.get("asserts") is not None:
+        o = _parse_step(sp, case, 1)
+        return {"identity": o["identity"], "exc": o["exc"], "drawn": o["drawn"]}
     xml, enc = _response(case, 1)
     o = spaccept.observe(sp, xml, case["binding"], {"req-1": "/"}, conv_info=case["conv"], encoded=enc)
     return {"identity": o["identity"], "exc": o["exc"]}
@@ -954,9 +1445,30 @@ def _subjects(sp):
         return set()
 
 
+def _cached(sp, before):
+    """(NameID texts, attribute names) the identity cache holds for the subjects it did not hold before the call"""
+    names, attrs = set(), set()
+    try:
+        subs = list(sp.users.subjects())
+    except Exception:  # noqa
+        return names, attrs
+    for x in subs:
+        if str(x) in before:
+            continue
+        names.add(getattr(x, "text", None))
+        try:
+            ident = sp.users.get_identity(x, check_not_on_or_after=False)[0]
+            attrs |= set(ident or {})
+        except Exception:  # noqa
+            pass
+    return names, attrs
+
+
 def _parse_step(sp, step, n):
     """spaccept.observe for an object whose identity cache is NOT reset between calls: identity = the call
-    returned something carrying identity, or the cache holds a subject it did not hold before the call."""
+    returned something carrying identity, or the cache holds a subject it did not hold before the call.
+    For a Response with a LIST of assertions ("asserts") also "drawn": per delivered assertion, is the identity the
+    caller gets (NameID returned / cached, attributes returned / cached, the assertion object handed out) drawn from it."""
     xml, enc = _response(step, n, sp.config.entityid)
     before = _subjects(sp)
     obs = {"identity": False, "exc": None}
@@ -965,6 +1477,7 @@ def _parse_step(sp, step, n):
         r = sp.parse_authn_request_response(enc, step["binding"], {"req-1": "/"}, conv_info=step["conv"])
     except Exception as e:  # noqa
         obs["exc"] = type(e).__name__
+    names, attrs, aids = set(), set(), set()
     if r is not None:
         nid = getattr(r, "name_id", None)
         si = None
@@ -974,20 +1487,43 @@ def _parse_step(sp, step, n):
             si = None
         obs["identity"] = bool((nid is not None and getattr(nid, "text", None) is not None) or getattr(r, "ava", None)
                                or getattr(r, "assertion", None) is not None or si is not None)
+        if nid is not None:
+            names.add(getattr(nid, "text", None))
+        attrs |= set(getattr(r, "ava", None) or {})
+        if si is not None:
+            attrs |= set(si.get("ava") or {})
+            sn = si.get("name_id")
+            if sn is not None:
+                names.add(getattr(sn, "text", None))
+        if getattr(r, "assertion", None) is not None:
+            aids.add(getattr(r.assertion, "id", None))
     if _subjects(sp) - before:
         obs["identity"] = True
+    if step.get("asserts") is not None:
+        cn, ca = _cached(sp, before)
+        names |= cn
+        attrs |= ca
+        obs["drawn"] = [bool(part_subject(n, k) in names or PART_ATTRS[k][1] in attrs or part_id(n, k) in aids)
+                        for k in range(len(step["asserts"]))]
+        if obs["identity"] and not any(obs["drawn"]):
+            # identity that cannot be traced to a delivered assertion: attributed to all of them (the strictest reading)
+            obs["drawn"] = [True] * len(step["asserts"])
     return obs
 
 
 def _observe_seq(case):
     sps = []
+    needs_key = any(part["enc"] for st in case["steps"] for part in (st.get("asserts") or []))
     for p in case["sps"]:
         eps = {"assertion_consumer_service": [tuple(e) if isinstance(e, list) else e for e in p["acs"]]}
         if p["slo"]:
             eps["single_logout_service"] = [tuple(e) for e in p["slo"]]
-        # no private key of its own (46 ms of RSA key checking per object otherwise): the SP neither signs nor
-        # decrypts anything in these calls
-        sps.append(world.make_sp(entityid=p["eid"], sp_endpoints=eps, key_file=None, encryption_keypairs=None))
+        # no private key of its own (46 ms of RSA key checking per object otherwise) unless a step delivers an encrypted
+        # assertion: the SP neither signs nor decrypts anything in the other calls
+        if needs_key:
+            sps.append(world.make_sp(entityid=p["eid"], sp_endpoints=eps))
+        else:
+            sps.append(world.make_sp(entityid=p["eid"], sp_endpoints=eps, key_file=None, encryption_keypairs=None))
     spaccept.CLOCK.install()
     out = []
     for n, st in enumerate(case["steps"]):
@@ -1048,6 +1584,15 @@ def coq_confs(st):
     return cq(out)
 
 
+def coq_resp(eid, specs, st, drawn):
+    """a Response with a list of assertions: C04.Corr.R"""
+    parts = [Raw("(C04.Corr.As %s %s %s)" % ("Advised" if is_adv(p) else ("Encrypted" if p["enc"] else "Plain"),
+                                             coq_conds(p), coq_confs(p))) for p in st["asserts"]]
+    return "C04.Corr.R %s %s %s %s %s %s %s" % (
+        cs(eid), cq(specs), cs(st["binding"]), cs_opt(st["dest"]), coq_conv(st["conv"]), cq(parts),
+        cq([bool(d) for d in drawn]))
+
+
 def coq_parse(ctor, eid, specs, st, identity):
     if st.get("confs") is not None or st.get("cond") is not None:
         return "C04.Corr.M %s %s %s %s %s %s %s %s" % (
@@ -1061,6 +1606,8 @@ def coq_parse(ctor, eid, specs, st, identity):
 
 def coq_case(case, obs):
     if "steps" not in case:
+        if case.get("asserts") is not None:
+            return "[%s]" % coq_resp(ME, coq_specs(case["cfg"]), case, obs["drawn"])
         if case.get("confs") is not None or case.get("cond") is not None:
             return "[%s]" % coq_parse("C04.Corr.M", ME, coq_specs(case["cfg"]), case, obs["identity"])
         return coq_parse("C04.Corr.mk", ME, coq_specs(case["cfg"]), case, obs["identity"])
@@ -1068,6 +1615,9 @@ def coq_case(case, obs):
     for st, o in zip(case["steps"], obs["steps"]):
         p = case["sps"][st["sp"]]
         acs = coq_eps(p["acs"])
+        if st["op"] == "parse" and st.get("asserts") is not None:
+            evs.append(Raw("(%s)" % coq_resp(p["eid"], acs, st, o.get("drawn", []))))
+            continue
         if st["op"] == "parse":
             evs.append(Raw("(%s)" % coq_parse("C04.Corr.P", p["eid"], acs, st, o["identity"])))
             continue
@@ -1126,6 +1676,15 @@ def _shape_key(st, cls):
     return ck, fk
 
 
+def _asserts_key(st, cls, audcls):
+    """class of a list of assertions: per assertion (travels encrypted, audience classes, Recipient class, shape)"""
+    if st.get("asserts") is None:
+        return None
+    return tuple(("adv" if is_adv(p) else p["enc"], tuple(tuple(audcls(a) for a in r) for r in p["rs"]), cls(p.get("recip")))
+                 + _shape_key(p, cls)
+                 for p in st["asserts"])
+
+
 def nontrivial(case, obs):
     if "steps" in case:
         key = []
@@ -1136,12 +1695,16 @@ def nontrivial(case, obs):
             sps, i, b = case["sps"], st["sp"], st["binding"]
             key.append(("parse", i, b[-4:], _rel(st["dest"], sps, i, b), _rel(st["recip"], sps, i, b),
                         tuple(tuple(_rel(a, sps, i, b) for a in r) for r in st["rs"]), bool(st["conv"]))
-                       + _shape_key(st, lambda v: _rel(v, sps, i, b)))
+                       + _shape_key(st, lambda v: _rel(v, sps, i, b))
+                       + (_asserts_key(st, lambda v: _rel(v, sps, i, b), lambda v: _rel(v, sps, i, b)),))
         return ("seq", tuple(tuple(sorted(p_urls(p))) + (p["eid"],) for p in case["sps"]), tuple(key))
     own = own_for(case["cfg"], case["binding"])
     shape = tuple(tuple("me" if a == ME else ("pad" if a and a.strip() == ME else ("none" if a is None else "x")) for a in r)
                   for r in case["rs"])
     key = (shape, _cls(case["dest"], own), _cls(case["recip"], own), bool(case["conv"]), case["binding"], case["cfg"])
+    if case.get("asserts") is not None:
+        audcls = lambda a: "me" if a == ME else ("pad" if a and a.strip() == ME else ("none" if a is None else "x"))  # noqa
+        return key + (_asserts_key(case, lambda v: _cls(v, own), audcls), bool(case.get("unsol")))
     if case.get("cond") is not None or case.get("confs") is not None or case.get("unsol"):
         return key + _shape_key(case, lambda v: _cls(v, own)) + (bool(case.get("unsol")),)
     trivial = shape == (("me",),) and key[1] == "own" and key[2] == "own" and not case["conv"]
